@@ -147,6 +147,7 @@ func replaySequential(path string) {
 			SetupOps []bop `json:"setup_ops"`
 			NRooms   int   `json:"named_rooms"`
 			Recovery bool  `json:"recovery"`
+			Pre      int   `json:"pre"`
 		} `json:"replay"`
 	}
 	if err := json.Unmarshal(b, &f); err != nil {
@@ -178,7 +179,7 @@ func replaySequential(path string) {
 		var hist []bop
 		json.Unmarshal(f.Replay.Ops, &hist)
 		out := &bOut{}
-		replayB(0, bItem{f.Replay.NRooms, f.Replay.SetupOps, hist, f.Replay.Recovery}, out)
+		replayB(0, bItem{f.Replay.NRooms, f.Replay.SetupOps, hist, f.Replay.Recovery, f.Replay.Pre}, out)
 		for _, v := range out.Violations {
 			report(v.Key, v.Msg)
 		}
